@@ -267,6 +267,27 @@ def oracle(case, outs):
                 else:
                     if new != [x for x in uniq(old) if x != v]:
                         yield ("unsetup_removes_exactly", None, "action %d: %r -> %r (value %r)" % (i, old, new, v))
+        if a["op"] in ("prepend", "append") and den[0] == "multi":
+            # a value holding several elements: they all go first (last), in the order written
+            old = elems(before, delim)
+            new = elems(after, delim)
+            vs = den[1]
+            rest = [x for x in uniq(old) if x not in vs]
+            if a["fwd"]:
+                if len(new) != len(set(new)):
+                    yield ("nodup", None, "action %d: duplicates in %r" % (i, new))
+                if [x for x in new if x not in vs] != rest:
+                    yield ("others_kept_in_order", None, "action %d: %r -> %r" % (i, old, new))
+                if a["op"] == "prepend" and new[:len(vs)] != vs:
+                    yield ("prepend_first", None, "action %d: elements %r not first, in order, in %r" % (i, vs, new))
+                if a["op"] == "append" and new[-len(vs):] != vs:
+                    yield ("append_last", None, "action %d: elements %r not last, in order, in %r" % (i, vs, new))
+                if spec["pre"] and not (after or "").startswith(delim):
+                    yield ("leading_empty_element", None, "action %d: %r" % (i, after))
+                if spec["app"] and not (after or "").endswith(delim):
+                    yield ("trailing_empty_element", None, "action %d: %r" % (i, after))
+            elif new != rest:
+                yield ("unsetup_removes_exactly", None, "action %d: %r -> %r (elements %r)" % (i, old, new, vs))
         if a["op"] == "set" and den[0] in ("elems", "skip", "error"):
             if a["fwd"]:
                 if den[0] == "elems" and after != den[1][0]:
